@@ -130,6 +130,10 @@ def check_tx(case):
         what = 'mtx' if mutable else 'tx'
         r = libx.call(what + '/build', libx.mk_tx, m, mutable)
         obj = r[1]
+        if case.get('pre', 0) % 4:
+            # readings that use the OTHER serialisation form, taken first: the plain serialisation that follows is unaffected
+            for pre_ in ((obj.calc_weight if m['vout'] else obj.GetTxid), obj.GetTxid, lambda: obj.serialize({'include_witness': False}), obj.GetHash)[:case['pre'] % 4 + 1]:
+                libx.call(what + '/pre-reading', pre_)
         r = libx.call(what + '/serialize', obj.serialize)
         if r[1] != E:
             diff = next((i for i, (a, b) in enumerate(zip(r[1], E)) if a != b), min(len(r[1]), len(E)))
@@ -300,7 +304,7 @@ cuts = st.lists(st.integers(0, 10 ** 7), min_size=24, max_size=24)
 @st.composite
 def s_tx(draw, big=True):
     return {'kind': 'tx', 'tx': draw(gen.tx_model(big=big)), 'ext': draw(exts), 'cuts': draw(cuts),
-            'faults_mutable': draw(st.integers(0, 5)) == 0}
+            'faults_mutable': draw(st.integers(0, 5)) == 0, 'pre': draw(st.integers(0, 7))}
 
 
 @st.composite
@@ -353,6 +357,16 @@ def t_many(ctx):
     for v in ctx.my([0, 1, 0xfc, 0xfd, 0xfe, 0xff, 0x100, 0xffff, 0x10000, 0x10001, 0xffffffff, 0x100000000, 0x100000001,
                      2 ** 63, 2 ** 64 - 1, 0x7fffffff, 0x80000000]):
         ctx.run({'kind': 'varint', 'v': v})
+    # script and witness-item lengths at and around the multiples of 65,536 (buffers read in chunks) and just past 0xffff
+    for k_, L in enumerate([0xffff, 0x10000, 0x10001, 0x1ffff, 0x20000, 0x20001, 0x30000, 0x40000] + ([0x100000, 0x100000 - 1, 0x200000] if not ctx.quick else [])):
+        if k_ % ctx.nshards == ctx.shard:
+            blob_ = (bytes(range(251)) * (L // 251 + 1))[:L].hex()
+            ctx.run({'kind': 'tx', 'ext': ['00'], 'cuts': [5, L // 2, L, L + 40], 'faults_mutable': False,
+                     'tx': {'version': 1, 'vin': [['07' * 32, 1, blob_, 5]], 'vout': [[1, '51']], 'wit': None, 'locktime': 0}})
+            ctx.run({'kind': 'tx', 'ext': ['00'], 'cuts': [5, L // 2, L, L + 40], 'faults_mutable': False,
+                     'tx': {'version': 1, 'vin': [['07' * 32, 1, '', 5]], 'vout': [[1, blob_]], 'wit': [[blob_, '']], 'locktime': 0}})
+    if ctx.shard == 0:
+        ctx.exhaustive.append('script / output script / witness item of 0xffff, 0x10000, 0x10001, 0x1ffff, 0x20000, 0x20001, 0x30000, 0x40000 bytes')
     if not ctx.quick and ctx.shard == 0:
         # one 65,536-input transaction (vector-count boundary at 0x10000)
         t = {'version': 1, 'vin': [[(i % 251).to_bytes(1, 'big').hex() * 32, i, '', i] for i in range(65536)],
